@@ -10,7 +10,7 @@ func vpC08N() int {
 	if vp.Tier() == 0 {
 		return 6
 	}
-	return 10
+	return 8
 }
 
 // arbitrary bytes presented to every field decoder: a value or an error, never a panic.
